@@ -188,6 +188,35 @@ impl Prop for C13 {
             },
         ));
         f.push(Family::new(
+            "chained-conversions",
+            Mode::Full,
+            "two and three conversions on one line: 'N to B1 to B2 [to B3]' for N in [0, 1, 255, 4096] written in base 10 / 16 and every sequence of target bases (value N, printed in the last base, reads back), and 'N to B + M to B' with a fractional M (255 to hex + 10,6 to hex = 0x10A): every conversion on the line is carried out",
+            move |ch| {
+                let bases = [("hex", Base::Hex), ("octal", Base::Oct), ("binary", Base::Bin), ("decimal", Base::Dec)];
+                if ch.flag() {
+                    let (nt, n) = *ch.pick(&[("0", 0u64), ("1", 1), ("255", 255), ("0xFF", 255), ("4096", 4096)]);
+                    let k = 2 + ch.choose(2);
+                    let mut text = nt.to_string();
+                    let mut last = Base::Dec;
+                    for _ in 0..k {
+                        let (w, b) = *ch.pick(&bases);
+                        text.push_str(&format!(" to {}", w));
+                        last = b;
+                    }
+                    if last == Base::Dec {
+                        return Some(Case::Line(LineCase::new(text, Expect::Value(Val::Number(n as f64, Base::Dec), 0.0), "chained")));
+                    }
+                    Some(Case::RoundTrip { text, n: n as f64, base: last, out: printed(n, last) })
+                } else {
+                    let (w, b) = *ch.pick(&bases[..3]);
+                    let (at, a) = *ch.pick(&[("255", 255u64), ("1", 1), ("0b11", 3)]);
+                    let (mt, m) = *ch.pick(&[("10,6", 11u64), ("7,5", 8), ("2", 2)]);
+                    let _ = b;
+                    Some(Case::Line(LineCase::new(format!("{} to {} + {} to {}", at, w, mt, w), Expect::Unspecified, "chained-sum").with_number((a + m) as f64)))
+                }
+            },
+        ));
+        f.push(Family::new(
             "embedded-prefixes",
             Mode::Full,
             "hex literals whose digits contain what looks like another radix prefix (0b0, 0b1, 0B1 ...) or a leading zero: 0x10B0, 0x10b1, 0xA0B0C, 0x0b1, 0X0B101, 0xb0b1, 0x0, 0x00ff, alone, converted to decimal / binary and in a sum",
